@@ -56,7 +56,8 @@ class C12(core.Check):
         'pos:page-last', 'pos:next-page-first', 'pos:prev-page-last', 'zone:GLOBAL', 'zone:redefined-GLOBAL', 'zone:named',
         'rel:from-end', 'rel:from-start', 'slice:same-page', 'slice:other-page', 'w:non-byte-multiple', 'w:byte-multiple',
         'expect:ACCEPT', 'expect:REJECT', 'muted-statement', 'second-step-of-a-macro', 'value-as-expression',
-        'kind:valid_address/indirect_numeric', 'kind:valid_address/deferred_numeric', 'output:none', 'output:none+listing']}
+        'kind:valid_address/indirect_numeric', 'kind:valid_address/deferred_numeric', 'output:none', 'output:none+listing',
+        'kind:sliced-address/zone-ends-inside-the-page']}
 
     def one(self, conf, text, op, addr, tags, addr_bits=16, endian='big', zones=None, gz=None, origin=None, opcode_bits=8,
             fmt='json'):
@@ -189,6 +190,21 @@ class C12(core.Check):
                                 yield self.one(bconf, fmt_.format(lit(v)), {'id': 'o', 'val': v}, addr,
                                                ['kind:valid_address', 'kind:valid_address/' + btyp, 'zone:' + zkind, 'pos:' + pos],
                                                addr_bits=ab, gz=gz, origin=G[0] if gz else None)
+        # sliced addresses whose zone ends inside the instruction's own page: the zone bound holds for them as well
+        for k in (8, 10):
+            page = 1 << k
+            zs = [{'name': 'ZP', 'start': 4 * page + 16, 'end': 5 * page - 17}]
+            for zkind, gz, zname in (('named', None, 'ZP'), ('redefined-GLOBAL', (16, 7 * page - 17), None)):
+                conf = {'type': 'address', 'argument': {'size': k, 'byte_align': False, 'slice_lsb': True, 'match_address_msb': True}}
+                if zname:
+                    conf['argument']['memory_zone'] = zname
+                Z = (zs[0]['start'], zs[0]['end']) if zname else gz
+                for edge, vals in (('low', [(Z[0] - 1, 'start-1'), (Z[0], 'start')]), ('high', [(Z[1], 'end'), (Z[1] + 1, 'end+1')])):
+                    addr = ((Z[0] if edge == 'low' else Z[1]) >> k << k) + page // 2
+                    for v, pos in vals:
+                        yield self.one(conf, lit(v), {'id': 'o', 'val': v}, addr,
+                                       ['kind:sliced-address', 'kind:sliced-address/zone-ends-inside-the-page', 'zone:' + zkind, 'pos:' + pos, 'slice:same-page'],
+                                       zones=zs if zname else None, gz=gz, origin=gz[0] if gz else None)
         # sliced addresses: targets just across a 2^k boundary
         for k in (4, 8, 10):
             conf = {'type': 'address', 'argument': {'size': k, 'byte_align': False, 'slice_lsb': True, 'match_address_msb': True}}
@@ -196,7 +212,8 @@ class C12(core.Check):
             for addr in (page * 3 + 2, page * 3 + page - 2, page * 5):
                 base = (addr >> k) << k
                 for v, pos in [(base, 'page-first'), (base + page - 1, 'page-last'), (base - 1, 'prev-page-last'),
-                               (base + page, 'next-page-first'), (addr, 'self')]:
+                               (base + page, 'next-page-first'), (addr, 'self'), (addr & (page - 1), 'same-offset-in-page-0'),
+                               (0, 'address-0'), (page - 1, 'page-0-last')]:
                     yield self.one(conf, lit(v), {'id': 'o', 'val': v}, addr,
                                    ['kind:sliced-address', 'pos:' + pos, 'slice:' + ('same-page' if (v >> k) == (addr >> k) else 'other-page')])
 
